@@ -14,6 +14,7 @@ INVARIANT LawProbesOnSegments
 INVARIANT LawSomeProbeOutside
 INVARIANT LawLimbs
 INVARIANT LawTiny
+INVARIANT LawEqualPair
 INVARIANT LawFolded
 INVARIANT LawMonoComparable
 INVARIANT LawTypes
